@@ -1,7 +1,7 @@
 #!/bin/bash
 # run every thorough check once, sequentially, with a per-check cap; one line per check on stdout
 cd "$(dirname "$0")/.."
-for id in C23 C29 C10 C06 C11 C16 C25 C28 C31 C30 C22 C21 C26 C27 C33 C24 C32 C19 C08 C09 C13 C12 C14 C15 C17 C18 C20 C03 C04 C07 C05 C02 C01; do
+for id in ${LIST:-C23 C29 C10 C06 C11 C16 C25 C28 C31 C30 C22 C21 C26 C27 C33 C24 C32 C19 C08 C09 C13 C12 C14 C15 C17 C18 C20 C03 C04 C07 C05 C02 C01}; do
   s=$(date +%s); timeout ${CAP:-5400} bin/check $id --tier thorough > /tmp/thor_$id.log 2>&1; rc=$?; e=$(date +%s)
   echo "$id rc=$rc $((e-s))s $(grep -E 'thorough:|TOOL-ERROR|VIOLATION' /tmp/thor_$id.log | tail -2 | tr '\n' ' ' | cut -c1-300)"
 done
